@@ -4,13 +4,14 @@
 # against the copy (VERIF_REPO), prints their verdicts and removes the copy.
 set -u
 PATCH=$(readlink -f "$1"); shift
+HERE=$(cd "$(dirname "$(readlink -f "$0")")/.." && pwd)
 S=$(mktemp -d /var/tmp/dverif-mut.XXXXXX)
 trap 'rm -rf "$S"' EXIT
 rsync -a --exclude target --exclude .git /repo/ "$S/"
 ( cd "$S" && patch -p1 --quiet < "$PATCH" ) || { echo "PATCH-FAILED $PATCH"; exit 3; }
 rc=0
 for P in "$@"; do
-  VERIF_REPO="$S" VERIF_EVIDENCE_DIR="$S/.evidence" /verif/check "$P" > "$S/out.txt" 2>&1
+  VERIF_REPO="$S" VERIF_EVIDENCE_DIR="$S/.evidence" "$HERE/check" "$P" > "$S/out.txt" 2>&1
   c=$?
   if grep -q '^VIOLATION' "$S/out.txt"; then v=VIOLATION; else v=silent; fi
   echo "== $(basename $PATCH) $P exit=$c $v"
